@@ -2,6 +2,7 @@
 # tools/trymut.sh <patch.diff> <PROP> [check args...] — apply a seeded change to /repo, run the check, undo.
 patch="$1"; prop="$2"; shift 2
 cd /repo || exit 9
+if [ -n "$(git status --porcelain)" ]; then echo "refusing: /repo has uncommitted changes (they would be discarded)"; exit 9; fi
 if ! git apply --check "$patch" 2>/dev/null; then echo "patch does not apply: $patch"; exit 9; fi
 git apply "$patch"
 trap 'git -C /repo checkout -- . ' EXIT
